@@ -49,6 +49,13 @@ class Builder:
         self.h = h
         self.schema = schema
 
+    def leaf_sym(self, t):
+        if t.sort == "real":
+            return self.h.real(t.name)
+        if t.sort == "int":
+            return self.h.int(t.name)
+        return self.h.bool(t.name)
+
     # ------------------------------------------------ engine values
     def value(self, ty, t):
         ty = ty.strip()
@@ -65,11 +72,7 @@ class Builder:
             raise Unsupported("Box in template")
         name = last_seg(ty)
         if isinstance(t, Sym):
-            if t.sort == "real":
-                return self.h.real(t.name)
-            if t.sort == "int":
-                return self.h.int(t.name)
-            return self.h.bool(t.name)
+            return self.leaf_sym(t)
         if is_quantity(ty) or name in NUM_TYPES:
             if isinstance(t, bool):
                 raise TypeError(f"bool for {ty}")
@@ -279,6 +282,16 @@ class JAcc:
 
 RTOL = 1e-9
 ATOL = 1e-9
+# when set (symbolic mode only) EQ/LE/GE build the *tolerant* form of a claim, whose negation is a robust
+# violation (margin relative to the operands, with an absolute floor) — used to pick replayable witnesses
+MARGIN = None
+
+
+def _slack(a, b):
+    from fractions import Fraction as _F
+    m = _F(MARGIN).limit_denominator(10**9)
+    return m * (1 + ABS(a) + ABS(b))
+
 
 
 def _sym(*a):
@@ -293,6 +306,9 @@ def _f(x):
 
 def EQ(a, b):
     if _sym(a, b):
+        if MARGIN is not None and not (is_bool(a) or is_bool(b)):
+            a, b = to_z3(a), to_z3(b)
+            return z3.And(a - b <= _slack(a, b), b - a <= _slack(a, b))
         return to_z3(a) == to_z3(b)
     a, b = _f(a), _f(b)
     if isinstance(a, bool) or isinstance(b, bool):
@@ -302,6 +318,9 @@ def EQ(a, b):
 
 def LE(a, b):
     if _sym(a, b):
+        if MARGIN is not None:
+            a, b = to_z3(a), to_z3(b)
+            return a <= b + _slack(a, b)
         return to_z3(a) <= to_z3(b)
     a, b = _f(a), _f(b)
     return a <= b + ATOL + RTOL * max(abs(a), abs(b))
@@ -313,6 +332,9 @@ def GE(a, b):
 
 def LT(a, b):
     if _sym(a, b):
+        if MARGIN is not None:
+            a, b = to_z3(a), to_z3(b)
+            return a < b + _slack(a, b)
         return to_z3(a) < to_z3(b)
     return _f(a) < _f(b)
 
